@@ -53,7 +53,8 @@ def run(run):
     run.rule = ("libraries and pages from the expansion grammar x selections (templates_to_expand / templates_to_not_expand "
                 "subsets incl. None, need_pre_expand flags per template) x switches (pre_expand, expand_parserfns) x hooks "
                 "(template_fn / post_template_fn returning None or a marker per template name); plus identity cases (nothing "
-                "selected, parser functions off); non-trivial = at least two calls; distinct by JSON hash")
+                "selected, parser functions off); plus pages of text and flat calls under selections vs Model.FlatCall.page_result_sel; "
+                "non-trivial = at least two calls; distinct by JSON hash")
     run.trusted = [
         "Coq 8.16.1 kernel; vm_compute to evaluate Model.Expand (selection, switches, hooks) on the encoded pages",
         "axioms: none",
@@ -65,7 +66,7 @@ def run(run):
     for k, v in errs.items():
         run.correspondence_break("translator %s failed" % k, None, error=v)
     run.prove()
-    rc, out = lib.coq_make(["Gen/GenData.vo", "Model/Expand.vo"])
+    rc, out = lib.coq_make(["Gen/GenData.vo", "Model/Expand.vo", "Model/FlatCall.vo"])
     if rc != 0:
         run.correspondence_break("Gen/GenData.v or Model/Expand.v does not build", None, error=out[-1500:])
     n = 1200 if run.tier == "quick" else 20000
@@ -74,6 +75,7 @@ def run(run):
     check_twins(run, run.rng, run.tier == "quick")
     check_invoke_off(run, run.rng, run.tier == "quick")
     check_reentrant(run, run.rng, run.tier == "quick")
+    flat_selection(run, run.tier == "quick")
     idc = [identity_case(run.rng) for _ in range(200 if run.tier == "quick" else 4000)]
     res = c04.run_cases(run, idc, "selid", use_oracle=False)
     for c, r in zip(idc, res):
@@ -226,6 +228,68 @@ def check_reentrant(run, rng, quick):
         elif r["out"] != want:
             run.property_failure("c13:reentrant:selection-lost", "selection by name around a nested expansion: %r gave %r, expected %r"
                                  % (c["page"], r["out"], want), c)
+
+
+def flat_selection(run, quick):
+    """Wtp.expand with a selection on pages of text and flat calls against Model.FlatCall.page_result_sel (which
+    c13_flat_pages_expand_exactly_the_selected_calls proves the expander model computes)."""
+    import re
+    from lib import cstr, cbool, clist
+    rng = run.rng
+    cases = []
+    for _ in range(500 if quick else 10000):
+        c = c04.gen_flat(rng)
+        if c["lib"]:
+            c["lib"][0][2] = rng.random() < 0.4                   # flagged for pre-expansion
+        written = sorted(set(x.strip() for x in re.findall(r"\{\{([^|{}]*)", c["page"])))
+        pick = lambda: [n for n in written + ["nosuch"] if rng.random() < 0.45]
+        o = {"pre_expand": rng.random() < 0.85}
+        mode = rng.choice(["none", "expand", "not", "both"])
+        if mode in ("expand", "both"):
+            o["expand_names"] = pick()
+        if mode in ("not", "both"):
+            o["not_expand_names"] = pick()
+        c["opts"] = o
+        cases.append(c)
+    res = lib.run_impl("expandlib", cases, shards=lib.NCPU)
+    coq_cases, idx = [], []
+    for i, (c, r) in enumerate(zip(cases, res)):
+        run.count({"flatsel": c["lib"], "page": c["page"], "opts": c["opts"]}, c["page"].count("{{") >= 2, "flat-selection")
+        if r.get("outcome") != "ok":
+            run.property_failure("flatsel:%s:%s" % (r.get("outcome"), r.get("exc", "")), "expand() did not return normally: %r" % (r,), c)
+            continue
+        pa = r["page_ast"]
+        if any(not isinstance(x, int) and (x[0] != "T" or any(not isinstance(y, int) for y in x[1][0])) for x in pa) \
+                or sum(1 for x in pa if not isinstance(x, int)) != c["page"].count("{{"):
+            run.correspondence_break("a generated page of flat calls was not read as text and calls", c, page_ast=pa)
+            continue
+        # calls whose written name has blanks around it are re-emitted with them; the fragment's names have none
+        if any(not isinstance(x, int) and "".join(chr(y) for y in x[1][0]) != "".join(chr(y) for y in x[1][0]).strip() for x in pa):
+            continue
+        coq_cases.append("(%s, %s, %s, %s, %s)" % (G.coq_lib([[t[0], t[1], t[2]] for t in r["lib_ast"]]), G.coq_opts(c["opts"]),
+                                                   cbool(c["opts"]["pre_expand"]), G.coq_enc(pa), cstr(r["out"])))
+        idx.append(i)
+    imports = c04.IMPORTS + ["Model.FlatCall"]
+    ty = "list tpl * options * bool * enc * str"
+    notflat, errs = lib.coq_eval_failing("c13f0", imports, ty, coq_cases,
+                                         "fun '(l, o, pre, pg, out) => forallb (flat_item parser_functions l) pg", chunk=350)
+    for e in errs:
+        run.correspondence_break("model evaluation failed (flat selection)", None, error=e)
+    for b in notflat:
+        run.correspondence_break("a generated flat page is outside the fragment of Model.FlatCall.flat_item", cases[idx[b]])
+    bad, errs = lib.coq_eval_failing("c13f", imports, ty, coq_cases,
+                                     "fun '(l, o, pre, pg, out) => str_eqb (codes (page_result_sel l (o_sel o) pre pg)) out", chunk=350)
+    for e in errs:
+        run.correspondence_break("model evaluation failed (flat selection rule)", None, error=e)
+    for b in bad:
+        if b in notflat:
+            continue
+        c = cases[idx[b]]
+        want = lib.coq_eval_term(imports, "(fun '(l, o, pre, pg, out) => codes (page_result_sel l (o_sel o) pre pg)) (%s)" % coq_cases[b])
+        run.property_failure("c13:flat-page-differs-from-the-selection-rule",
+                             "expand(%r, %r) with templates %r gave %r; the selection rule (Model.FlatCall.page_result_sel) gives code "
+                             "points %s" % (c["page"], c["opts"], c["lib"], res[idx[b]]["out"], " ".join(want.split())[:300]), c)
+    run.extra["flat_pages_checked_against_the_selection_rule"] = len(coq_cases)
 
 
 def replay(data):
